@@ -22,6 +22,7 @@ import (
 	"fmt"
 	"hash/fnv"
 	"math/rand"
+	"os"
 	"sort"
 	"testing"
 	"time"
@@ -35,6 +36,7 @@ var presHashSlots = map[int64]uint16{1: 5, 2: 37, 3: 6} // 5 and 37 share a shar
 // session, node, boot per connection number: pairs of one uid differ in one field only
 var presIdent = [][3]uint64{
 	{10, 1, 100}, {10, 1, 101}, {10, 2, 100}, {11, 1, 100}, {11, 2, 100}, {10, 2, 101}, {11, 1, 101}, {11, 2, 101},
+	{12, 1, 100}, {12, 2, 100}, {12, 1, 101}, {12, 2, 101},
 }
 
 type presAttr struct {
@@ -515,6 +517,18 @@ func TestVerifPresence(t *testing.T) {
 	if err != nil {
 		rep.Infra("load behaviours: %v", err)
 	}
+	// the behaviours of the second generator (sim stage "buckets", specs/Presence/SimBuckets.tla:
+	// many routes with many distinct activity seconds in one hash slot)
+	if dir := os.Getenv("VERIF_BEH_DIR"); dir != "" && env.BehFile != "" {
+		if _, serr := os.Stat(dir + "/beh_buckets.jsonl"); serr == nil {
+			more, err := kit.LoadBehaviours(dir + "/beh_buckets.jsonl")
+			if err != nil {
+				rep.Infra("load behaviours (buckets): %v", err)
+			}
+			rep.Extra("bucket_behaviours", len(more))
+			behs = append(behs, more...)
+		}
+	}
 	for bi, b := range behs {
 		if len(b.Steps) == 0 || kit.Str(b.Steps[0].Ev, "a") != "Init" {
 			rep.Infra("behaviour %d does not start with Init", bi)
@@ -576,17 +590,28 @@ func TestVerifPresence(t *testing.T) {
 		{{"u1", 0, 1, "a"}, {"u1", 0, 0, "a"}, {"u1", 0, 0, "b"}, {"u2", 0, 1, "a"}, {"u2", 0, 1, "b"}, {"u1", 1, 2, "a"}},
 		{{"u1", 0, 1, "a"}, {"u1", 0, 1, "b"}, {"u1", 0, 2, "a"}, {"u1", 1, 0, "a"}, {"u1", 1, 0, "a"}, {"u2", 0, 0, "a"}},
 	}
+	// bucket mode (every fourth trace): ten connections that (all but the last) never conflict, all in
+	// hash slot 1 under one incarnation, activity seconds from a wide domain in arbitrary order, touches
+	// and unregisters that empty activity seconds, expiries whose cutoff lies between the seconds present
+	wide := []presAttr{{"u1", 0, 2, "a"}, {"u1", 1, 2, "a"}, {"u2", 0, 0, "a"}, {"u2", 0, 0, "b"}, {"u3", 0, 0, "a"},
+		{"u3", 1, 0, "a"}, {"u4", 0, 2, "a"}, {"u5", 0, 2, "a"}, {"u5", 0, 0, "b"}, {"u4", 0, 1, "b"}}
+	bucketTraces := 0
 	slots := []int64{1, 2}
 	auths := []int64{1, 2, 3}
 	traces := env.Pick(120, 1500)
 	for tr := 0; tr < traces; tr++ {
 		prof := profiles[rng.Intn(len(profiles))]
+		bucketMode := tr%4 == 3
+		if bucketMode {
+			prof = wide
+			bucketTraces++
+		}
 		conns := []any{}
 		for _, a := range prof {
 			conns = append(conns, map[string]any{"uid": a.uid, "flag": int(a.flag), "level": int(a.level), "dev": a.dev})
 		}
 		foreign := []any{}
-		if rng.Intn(2) == 0 {
+		if rng.Intn(2) == 0 && !bucketMode {
 			foreign = append(foreign, int64(1+rng.Intn(3)))
 		}
 		cfg := kit.Canon(map[string]any{"conns": conns, "foreign": foreign, "auths": auths}).(map[string]any)
@@ -598,7 +623,7 @@ func TestVerifPresence(t *testing.T) {
 		rec.Begin(map[string]any{"cfg": cfg}, sut.proj())
 		nconn := int64(len(prof))
 		// what the driver believes is active (from the last projection), to aim calls
-		type act struct{ c, seq int64 }
+		type act struct{ c, seq, seen int64 }
 		active := map[int64][]act{}
 		accept := map[int64]int64{}
 		observe := func(p map[string]any) {
@@ -608,7 +633,7 @@ func TestVerifPresence(t *testing.T) {
 				accept[hs] = m["id"].(int64)
 				active[hs] = active[hs][:0]
 				for _, r := range m["routes"].([]map[string]any) {
-					active[hs] = append(active[hs], act{r["c"].(int64), int64(r["seq"].(uint64))})
+					active[hs] = append(active[hs], act{r["c"].(int64), int64(r["seq"].(uint64)), r["seen"].(int64)})
 				}
 			}
 		}
@@ -693,9 +718,170 @@ func TestVerifPresence(t *testing.T) {
 			rep.Cover(kit.Str(ev, "a"))
 			return !checkOrder(map[string]any{"event": ev, "trace": tr})
 		}
+		var lastExpire map[string]any
+		var plan []string
+		bucketStep := func() map[string]any {
+			hs := int64(1)
+			if accept[hs] <= 0 {
+				return kit.Ev("Become", "hs", hs, "id", auths[rng.Intn(len(auths))])
+			}
+			t := map[string]any{"hs": hs, "id": accept[hs]}
+			a := active[hs]
+			on := map[int64]bool{}
+			secs := map[int64]bool{}
+			maxSeen := int64(0)
+			for _, x := range a {
+				on[x.c] = true
+				if x.seen != 0 {
+					secs[x.seen] = true
+				}
+				if x.seen > maxSeen {
+					maxSeen = x.seen
+				}
+			}
+			var idle []int64
+			for c := int64(1); c <= nconn; c++ {
+				if !on[c] {
+					idle = append(idle, c)
+				}
+			}
+			anySeen := func() int64 { return 1 + rng.Int63n(600) }
+			sorted := make([]int64, 0, len(secs))
+			for x := range secs {
+				sorted = append(sorted, x)
+			}
+			sort.Slice(sorted, func(i, j int) bool { return sorted[i] < sorted[j] })
+			sweep := func() map[string]any {
+				ttl := 1 + rng.Int63n(8)
+				return kit.Ev("Expire", "now", sorted[0]+ttl+1, "ttl", ttl)
+			}
+			// the scripted probe (see specs/Presence/SimBuckets.tla): a route arrives late with an old
+			// activity second, a route alone in a newer second leaves it, the clock sweeps forward
+			if len(plan) > 0 {
+				head := plan[0]
+				plan = plan[1:]
+				if head == "leave" && len(sorted) > 0 {
+					median := sorted[len(sorted)/2]
+					var up []act
+					for _, x := range a {
+						alone := x.seen >= median
+						for _, y := range a {
+							alone = alone && (y.c == x.c || y.seen != x.seen)
+						}
+						if alone {
+							up = append(up, x)
+						}
+					}
+					if len(up) > 0 {
+						x := up[rng.Intn(len(up))]
+						note(t, x.c, x.seq)
+						if rng.Intn(3) == 0 {
+							return kit.Ev("Unregister", "t", t, "c", x.c, "seq", x.seq)
+						}
+						return kit.Ev("Touch", "t", t, "items", []any{map[string]any{"c": x.c, "seq": x.seq, "seen": maxSeen + 1 + rng.Int63n(5)}})
+					}
+				}
+				if len(sorted) > 0 {
+					return sweep()
+				}
+				plan = nil
+			}
+			if len(sorted) >= 5 && rng.Intn(3) == 0 {
+				var free []int64
+				for _, c := range idle {
+					ok := true
+					for _, x := range a {
+						in, ex := prof[c-1], prof[x.c-1]
+						if in.uid == ex.uid && in.flag == ex.flag && (in.level == 1 || (in.level == 0 && in.dev == ex.dev)) {
+							ok = false
+						}
+					}
+					if ok {
+						free = append(free, c)
+					}
+				}
+				var old []int64
+				for x := sorted[0] + 1; x < sorted[len(sorted)/2]; x++ {
+					if !secs[x] {
+						old = append(old, x)
+					}
+				}
+				if len(free) > 0 && len(old) > 0 {
+					c := free[rng.Intn(len(free))]
+					q := maxSeq[[2]int64{hs, c}] + 1
+					note(t, c, q)
+					plan = []string{"leave", "sweep", "sweep"}
+					for n := rng.Intn(3); n > 0; n-- {
+						plan = append(plan, "sweep")
+					}
+					return kit.Ev("Register", "t", t, "c", c, "seq", q, "seen", old[rng.Intn(len(old))])
+				}
+			}
+			r := rng.Intn(100)
+			switch {
+			case len(idle) > 0 && (r < 25 || (len(secs) < 6 && r < 60)):
+				c := idle[rng.Intn(len(idle))]
+				q := maxSeq[[2]int64{hs, c}] + int64(rng.Intn(2))
+				if _, known := maxSeq[[2]int64{hs, c}]; !known {
+					q = int64(rng.Intn(2))
+				}
+				if rng.Intn(6) == 0 {
+					q = seqFor(hs, c)
+				}
+				note(t, c, q)
+				if rng.Intn(4) == 0 { // a touch recreates a missing route
+					return kit.Ev("Touch", "t", t, "items", []any{map[string]any{"c": c, "seq": q, "seen": anySeen()}})
+				}
+				return kit.Ev("Register", "t", t, "c", c, "seq", q, "seen", anySeen())
+			case len(live[hs]) > 0 && r < 64:
+				return kit.Ev("Commit", "t", t, "tok", liveTok(hs))
+			case len(a) > 0 && r < 80:
+				items := []any{}
+				for n := 1 + rng.Intn(3); n > 0; n-- {
+					x := a[rng.Intn(len(a))]
+					q := x.seq
+					if rng.Intn(4) == 0 {
+						q++
+					}
+					seen := anySeen()
+					if rng.Intn(2) == 0 { // a heartbeat: newer than everything present
+						seen = maxSeen + 1 + rng.Int63n(5)
+					}
+					note(t, x.c, q)
+					items = append(items, map[string]any{"c": x.c, "seq": q, "seen": seen})
+				}
+				return kit.Ev("Touch", "t", t, "items", items)
+			case len(a) > 0 && r < 87:
+				x := a[rng.Intn(len(a))]
+				note(t, x.c, x.seq)
+				return kit.Ev("Unregister", "t", t, "c", x.c, "seq", x.seq)
+			case len(a) > 0 && r < 97:
+				if lastExpire != nil && rng.Intn(3) == 0 { // again at the same instant: nothing more is due
+					return kit.Ev("Expire", "now", lastExpire["now"], "ttl", lastExpire["ttl"])
+				}
+				x := a[rng.Intn(len(a))]
+				ttl := 1 + rng.Int63n(8)
+				return kit.Ev("Expire", "now", x.seen+ttl+rng.Int63n(3), "ttl", ttl)
+			case r < 98:
+				return kit.Ev("Become", "hs", hs, "id", accept[hs]) // revision-only update
+			}
+			return kit.Ev("Lookup", "t", t, "uids", uidList(), "via", []string{"uids", "uid"}[rng.Intn(2)])
+		}
 		steps := 15 + rng.Intn(35)
+		if bucketMode {
+			steps = 50 + rng.Intn(40)
+		}
 		ok := true
 		for i := 0; i < steps && ok; i++ {
+			if bucketMode {
+				ev := bucketStep()
+				lastExpire = nil
+				if kit.Str(ev, "a") == "Expire" {
+					lastExpire = ev
+				}
+				ok = step(ev)
+				continue
+			}
 			aim := rng.Intn(5) != 0
 			conn := func() int64 { return 1 + rng.Int63n(nconn) }
 			var ev map[string]any
@@ -793,6 +979,7 @@ func TestVerifPresence(t *testing.T) {
 			}
 		}
 	}
+	rep.Extra("bucket_mode_traces", bucketTraces)
 	if err := rec.Close(); err != nil {
 		rep.Infra("trace file: %v", err)
 	}
